@@ -5,6 +5,7 @@ import Tw.Proofs.Conn7
 import Tw.Proofs.ConnSeq
 import Tw.Proofs.ConnWire6
 import Tw.Proofs.ConnWire7
+import Tw.Proofs.ConnTok7
 
 /-!
 # C04 — everything the connection layer sends is well-formed; bad sends are refused
@@ -260,18 +261,23 @@ theorem conn7_wire_chunks (ack tok : Nat) (rr : Bool) (n : Nat) (cs : List Chunk
   rw [hn]
   exact Tw.Wire7.drain_encChunks cs (Tw.Wire7.chunkEnc_of_valid hv hs)
 
-/-- chunk packets and token-free control packets of every permitted 0.7 schedule round-trip on the
-byte level (for `Connect` / `Token` packets add `tokRange`, i.e. 32-bit random draws) -/
+/-- **C04 ∘ C05 (0.7), over schedules**: for every schedule of permitted calls from a fresh connection
+whose random draws are 32-bit values (`secure_random` fills four bytes; the model's draws are natural
+numbers — `Env.drawsOk`, token-range invariant `Tw/Proofs/ConnTok7.lean` by builder `connc01`), every
+datagram handed to the send callback is written to at most 1400 bytes that the reader parses back
+to the same packet without a warning -/
 theorem conn7_schedule_wire (t : Tw.Huffman.Table) (hrt : Tw.Packet7.HuffmanRoundTrip t)
-    (sched : List (Tw.Conn7.Env × Tw.Conn7.Op)) (h : Tw.Conn7.runPermitted .new sched = true) :
-    ∃ c outs, Tw.Conn7.run .new sched = .ok (c, outs) ∧ ∀ out ∈ outs, ∀ p ∈ out.sent, Tw.Wire7.tokRange p →
+    (sched : List (Tw.Conn7.Env × Tw.Conn7.Op)) (h : Tw.Conn7.runPermitted .new sched = true)
+    (hd : ∀ eo ∈ sched, eo.1.drawsOk) :
+    ∃ c outs, Tw.Conn7.run .new sched = .ok (c, outs) ∧ ∀ out ∈ outs, ∀ p ∈ out.sent,
       ∃ bs, Tw.Packet7.write t (Tw.Wire7.toWire p) Tw.Gen.Packet7.MAX_PACKETSIZE = .ok bs ∧ bs.length ≤ 1400 ∧
         ∃ r, Tw.Packet7.read t bs (some Tw.Gen.Packet7.MAX_PACKETSIZE) = .ok r ∧
           r.pkt = Tw.Wire7.toWire p ∧ r.warns = [] := by
   obtain ⟨c, outs, he, hv⟩ := conn7_no_panic_all_valid sched h
   refine ⟨c, outs, he, ?_⟩
-  intro out ho p hp ht
-  exact conn7_wire_roundtrip t hrt p (hv out ho p hp) (conn7_all_sent_in_range sched c outs he out ho p hp) ht
+  intro out ho p hp
+  exact conn7_wire_roundtrip t hrt p (hv out ho p hp) (conn7_all_sent_in_range sched c outs he out ho p hp)
+    (Tw.Conn7.conn7_all_sent_tokRange sched c outs hd he out ho p hp)
 
 -- the byte form of the chunk the repository's own tests send (`\x40\x01\x01\x42`: vital, sequence 1, one byte)
 example : Tw.Wire6.encChunks [⟨some (1, false), [0x42]⟩] = [0x40, 0x01, 0x01, 0x42] := by decide
